@@ -32,6 +32,14 @@ type vlFS struct {
 	seed int64
 	n    *atomic.Int64
 	gc   *atomic.Int64 // number of *_gc files opened (= files a GC pass decided to compact)
+	del  *atomic.Int32 // > 0 while a DeleteTimeRange call is in progress
+	win  *vlWindow     // guard rounds: signalled at the first file read inside the index delete
+}
+
+type vlWindow struct {
+	armed atomic.Bool
+	once  sync.Once
+	ch    chan struct{}
 }
 
 func (f vlFS) nap(max int) {
@@ -47,6 +55,15 @@ func (f vlFS) Open(name string, flag int) (xfs.File, error) {
 	if len(name) > 3 && name[len(name)-3:] == "_gc" {
 		f.gc.Add(1)
 		f.nap(400)
+	} else if flag == os.O_RDONLY && f.del != nil && f.del.Load() > 0 {
+		// files read while a delete is in progress (offset resolution between the delete's
+		// checks and its index update): stretch that window
+		f.nap(700)
+		if f.win != nil && f.win.armed.Load() {
+			// scheduler gate: let a waiting writer session run inside the delete
+			f.win.once.Do(func() { close(f.win.ch) })
+			time.Sleep(5 * time.Millisecond)
+		}
 	}
 	return f.FS.Open(name, flag)
 }
@@ -61,7 +78,7 @@ func (f vlFS) Sub(name string) (xfs.FS, error) {
 	if err != nil {
 		return nil, err
 	}
-	return vlFS{FS: sub, seed: f.seed, n: f.n, gc: f.gc}, nil
+	return vlFS{FS: sub, seed: f.seed, n: f.n, gc: f.gc, del: f.del, win: f.win}, nil
 }
 
 type vlEvent struct {
@@ -119,16 +136,23 @@ func (r *vlRound) opts() []Option {
 func (r *vlRound) content() (map[string]map[string]int, string, error) {
 	out := map[string]map[string]int{}
 	anom := ""
-	r.wmu.Lock()
-	defer r.wmu.Unlock()
 	for _, ch := range []string{"I", "D", "V"} {
 		out[ch] = map[string]int{}
+		// the read runs without the harness lock (it may be stalled by the file-system
+		// perturbation); the write log is looked at afterwards: it is updated BEFORE a write
+		// is issued, so it holds everything the read can have returned
 		fr, err := r.db.Read(context.Background(), telem.TimeRangeMax, vsKeys[ch])
 		if err != nil {
 			return nil, "", fmt.Errorf("read %s: %w", ch, err)
 		}
 		rev := map[string][2]int{}
+		r.wmu.Lock()
+		wl := make(map[int]int, len(r.written[ch]))
 		for t, id := range r.written[ch] {
+			wl[t] = id
+		}
+		r.wmu.Unlock()
+		for t, id := range wl {
 			var b []byte
 			switch ch {
 			case "I":
@@ -222,7 +246,9 @@ func vlRun(seed int64, round int, hang *atomic.Bool) (evs []vlEvent, fatal strin
 		// concurrent sessions write to new files and GC may compact the old one meanwhile
 		c.FileCap = 64
 	}
-	r := &vlRound{c: c, fs: vlFS{FS: xfs.NewMem(), seed: seed*131 + int64(round), n: &atomic.Int64{}, gc: &atomic.Int64{}}, written: map[string]map[int]int{"I": {}, "D": {}, "V": {}}}
+	inDel := &atomic.Int32{}
+	win := &vlWindow{ch: make(chan struct{})}
+	r := &vlRound{c: c, fs: vlFS{FS: xfs.NewMem(), seed: seed*131 + int64(round), n: &atomic.Int64{}, gc: &atomic.Int64{}, del: inDel, win: win}, written: map[string]map[int]int{"I": {}, "D": {}, "V": {}}}
 	db, err := Open(context.Background(), "", r.opts()...)
 	if err != nil {
 		return nil, "open: " + err.Error()
@@ -248,9 +274,13 @@ func vlRun(seed int64, round int, hang *atomic.Bool) (evs []vlEvent, fatal strin
 		}
 	}
 	// session runs one writer session on all three channels: open, writes, commit, close
-	session := func(p string, start int, chunks [][]int, auto bool) string {
-		r.log(vlEvent{Ev: "call", P: p, Op: "open", Chans: all, Start: start, Auto: auto})
-		cfg := WriterConfig{Channels: []ChannelKey{vsKeyI, vsKeyD, vsKeyV}, Start: c.ts(start), EnableAutoCommit: &auto, Sync: new(true)}
+	sessionOn := func(p string, chans []string, start int, chunks [][]int, auto bool) string {
+		keys := make([]ChannelKey, 0, len(chans))
+		for _, ch := range chans {
+			keys = append(keys, vsKeys[ch])
+		}
+		r.log(vlEvent{Ev: "call", P: p, Op: "open", Chans: chans, Start: start, Auto: auto})
+		cfg := WriterConfig{Channels: keys, Start: c.ts(start), EnableAutoCommit: &auto, Sync: new(true)}
 		persist(&cfg)
 		w, err := db.OpenWriter(ctx, cfg)
 		if err != nil {
@@ -261,9 +291,12 @@ func vlRun(seed int64, round int, hang *atomic.Bool) (evs []vlEvent, fatal strin
 		for _, times := range chunks {
 			id++
 			r.log(vlEvent{Ev: "call", P: p, Op: "write", Times: times, ID: id})
-			res, _ := r.write(w, all, times, id)
+			res, _ := r.write(w, chans, times, id)
 			r.log(vlEvent{Ev: "ret", P: p, Res: res})
 			runtime.Gosched()
+			if res != "ok" {
+				break // a writer that reported an error is only closed
+			}
 		}
 		if !auto {
 			r.log(vlEvent{Ev: "call", P: p, Op: "commit"})
@@ -275,9 +308,24 @@ func vlRun(seed int64, round int, hang *atomic.Bool) (evs []vlEvent, fatal strin
 		r.log(vlEvent{Ev: "ret", P: p, Res: vsErrClass(err)})
 		return ""
 	}
+	session := func(p string, start int, chunks [][]int, auto bool) string {
+		return sessionOn(p, all, start, chunks, auto)
+	}
+	// guard rounds: the index channel alone already holds samples at 22..26; during the
+	// concurrent phase a DATA-ONLY writer session fills D and V there while the deleter
+	// removes that range from the index channel alone. Different channels, so inside C09's
+	// envelope; the index-delete guard and the writer's open must be ordered one way or the
+	// other: both succeeding has no serial explanation.
+	guard := rnd.Intn(2) == 0
+	waitForDelete := rnd.Intn(4) != 0
 	// phase A (sequential): old data at abstract times 0,2,...,14
 	if msg := session("w", 0, [][]int{{0, 2, 4}, {6, 8}, {10, 12, 14}}, rnd.Intn(2) == 0); msg != "" {
 		return nil, msg
+	}
+	if guard {
+		if msg := sessionOn("w", []string{"I"}, 22, [][]int{{22, 24}, {26}}, true); msg != "" {
+			return nil, msg
+		}
 	}
 	// phase B (concurrent)
 	var wg sync.WaitGroup
@@ -288,8 +336,22 @@ func vlRun(seed int64, round int, hang *atomic.Bool) (evs []vlEvent, fatal strin
 		defer wg.Done()
 		<-start
 		a1, a2 := rnd.Intn(2) == 0, rnd.Intn(2) == 0
-		_ = session("w", 16, [][]int{{16}, {18, 20}}, a1)
-		_ = session("w", 22, [][]int{{22, 24}, {26}}, a2)
+		if !guard {
+			_ = session("w", 16, [][]int{{16}, {18, 20}}, a1)
+		}
+		if guard {
+			if waitForDelete {
+				// start the data-only session while the index delete is in progress
+				select {
+				case <-win.ch:
+				case <-time.After(50 * time.Millisecond):
+				}
+			}
+			_ = sessionOn("w", []string{"D", "V"}, 22, [][]int{{22, 24}, {26}}, a2)
+			_ = session("w", 16, [][]int{{16}, {18, 20}}, a1)
+		} else {
+			_ = session("w", 22, [][]int{{22, 24}, {26}}, a2)
+		}
 	}()
 	// deletes: every range holds at least one sample that is still present on every named
 	// channel, so that no outcome depends on how the code trims sample-free domain pieces
@@ -329,6 +391,14 @@ func vlRun(seed int64, round int, hang *atomic.Bool) (evs []vlEvent, fatal strin
 		}
 		dels = append(dels, vlEvent{Chans: cs, A: a, B: b})
 	}
+	if guard {
+		at := rnd.Intn(len(dels) + 1)
+		// a range that cuts the index domain (22..26), so that the delete has to resolve
+		// sample offsets by reading the index file between its checks and its update
+		g := [][2]int{{21, 25}, {22, 25}, {23, 27}, {23, 25}, {24, 27}}[rnd.Intn(5)]
+		gd := vlEvent{Chans: []string{"I"}, A: g[0], B: g[1]}
+		dels = append(dels[:at], append([]vlEvent{gd}, dels[at:]...)...)
+	}
 	wg.Add(1)
 	go func() { // deleter: ranges inside the old region only (b <= 15 < every new session start)
 		defer wg.Done()
@@ -343,7 +413,12 @@ func vlRun(seed int64, round int, hang *atomic.Bool) (evs []vlEvent, fatal strin
 				r.tainted.Store(true)
 			}
 			r.log(vlEvent{Ev: "call", P: "d", Op: "delete", Chans: d.Chans, A: d.A, B: d.B})
+			isGuard := guard && len(d.Chans) == 1 && d.Chans[0] == "I"
+			win.armed.Store(isGuard)
+			inDel.Add(1)
 			err := db.DeleteTimeRange(ctx, keys, telem.TimeRange{Start: c.ts(d.A), End: c.ts(d.B)})
+			inDel.Add(-1)
+			win.armed.Store(false)
 			res := "ok"
 			if err != nil {
 				res = "err:" + err.Error()
